@@ -139,6 +139,8 @@ func buildPlan(sc *Scenario, pl int) *workflow.Plan {
 	delay := 200 * time.Microsecond
 	if sc.ContDelayUs > 0 {
 		delay = time.Duration(sc.ContDelayUs) * time.Microsecond
+	} else if sc.ContDelayUs < 0 {
+		delay = 0 // Checks.Delay unset: the continuous checks run back to back
 	}
 	mk := func(prefix string, n int) *workflow.Checks {
 		c := &workflow.Checks{Delay: delay}
